@@ -26,6 +26,7 @@ import LarkVerif.Choice
 import LarkVerif.Recons
 import LarkVerif.ForestVisit
 import LarkVerif.TableSer
+import LarkVerif.LR0
 import Std.Data.HashMap
 /-! Line-protocol driver: one JSON request per stdin line (`{"op": ...}`), one JSON answer per stdout line.
     Runs the *executable definitions the theorems are about*.  Not part of the proof library. -/
@@ -611,6 +612,25 @@ def handle (j : Json) : Except String Json := do
   | "lr_feed" => runLrFeed j
   | "rule_size" => runRuleSize j
   | "choose" => runChoose j
+  | "lr0_check" =>
+    -- {"rules", "items": [[[rule, dot]...]...], "kernels": [[[rule, dot]...]...], "trans": [[p, [k, n], q]...]}: lark's LR(0) automaton against LR0.closure / gotoKernel
+    let rules ← (← getArr j "rules").mapM ruleOf
+    let itemsOfJ (k : String) : Except String (List (List LR0.It)) := do
+      (← getArr j k).mapM fun st => do
+        (← st.getArr?).toList.mapM fun e => do
+          match (← e.getArr?).toList with
+          | [r, d] => pure (rules.getD (← r.getNat?) ⟨0, []⟩, ← d.getNat?)
+          | _ => throw "item"
+    let items ← itemsOfJ "items"
+    let kernels ← itemsOfJ "kernels"
+    let trans ← (← getArr j "trans").mapM fun e => do
+      match (← e.getArr?).toList with
+      | [p, X, q] => pure ((← p.getNat?), (← symOf X), (← q.getNat?))
+      | _ => throw "transition"
+    let G : EarleyProto.Grammar := ⟨rules⟩
+    let A : LR0.Auto := ⟨items, kernels, trans⟩
+    let bad := (List.range items.length).filter fun q => !LR0.sameSet (A.itemsOf q) (LR0.closure G (A.kernelOf q))
+    pure (Json.mkObj [("ok", Json.bool (LR0.checkLR0 G A)), ("states_not_closure_of_kernel", natArr bad)])
   | "table_ser" =>
     -- {"table": [[state, [[name, kind, arg]...]]...], "enc": {"tokens": [...], "states": [[state, [[idx, kind, arg]...]]...]}}
     let actOf (k a : Json) : Except String TableSer.Act := do
